@@ -426,6 +426,10 @@ def write_replay(prop, rec_line, meshdefs, msg, jobline):
         name = jobline.split()[2]
         m = re.search(r'^M %s .*?^\.$' % re.escape(name), meshdefs, re.S | re.M)
         txt += (m.group(0) if m else meshdefs) + '\n'
+    if rec_line.get('must'):
+        txt += '#MUST\n'
+    if rec_line.get('exact'):
+        txt += '#EXACT\n'
     txt += jobline + '\n'
     h = hashlib.sha1(txt.encode()).hexdigest()[:12]
     p = os.path.join(vlib.RUN, 'replay', '%s-%s.jobs' % (prop, h))
@@ -716,20 +720,25 @@ def check_faults(ctx, cov, prop):
         kc[kinds[jj]] = kc.get(kinds[jj], 0) + 1
     cov['inputs_by_kind'] = kc
     cov['evaluations'] = len(rrecs)
+    # distinct inputs = distinct job lines without the job number; non-trivial = not an unmodified corpus file
+    distinct = {' '.join(x.split()[2:]) for jj, x in rmap.items() if kinds[jj] != 'identity'}
+    cov['distinct_inputs'] = len(distinct)
     if prop == 'C18':
         # output stream failing at every byte k while saving
         wj, j2 = [], 1
         for m in ms:
             n = len(base[[i for i, l in enumerate(src, 1) if json.loads(l)['j'] == [jj for jj, x in jmap.items() if x.split()[2] == m.name][0]][0]])
-            step = 1 if (ctx.tier == 'thorough' or n <= 400) else 5
-            for k in list(range(0, n, step)) + [n, n + 1]:
-                for mode in (0, 1):
+            # every byte in thorough; quick: every 4th byte (short write) and every 16th (throwing buffer)
+            for mode in (0, 1):
+                step = 1 if ctx.tier == 'thorough' else (4 if mode == 0 else 16)
+                for k in sorted(set(list(range(0, n, step)) + [n - 1, n, n + 1])):
                     wj.append('W %d %s ovmb auto %d %d' % (j2, m.name, k, mode)); j2 += 1
         wmap = {int(x.split()[1]): x for x in wj}
         wrecs = run_exec(ctx.variant, defs, wj, ctx.work, 'wf')
         res = validate_lines([wrecs[jj] for jj in sorted(wrecs)], [prop], ctx.work, 'vwf')
         ctx.collect(res, wrecs, wmap, defs)
         cov['write_failure_injections'] = len(wrecs)
+        cov['distinct_write_failures'] = len({' '.join(x.split()[2:]) for x in wj})
         cov['evaluations'] += len(wrecs)
         gen_theorems(ctx, cov, cp, 1200 if ctx.tier == 'quick' else 4000)
         machine_mc(ctx, cov)
@@ -769,11 +778,11 @@ RULE = {
            '(every header / chunk-header / sub-header byte x boundary values, every numeric field x {0,1,n-1,n+1,2^31-1,2^32-1,2^32,2^63-1,2^64-1}, '
            'chunk drop/dup/swap/EOF-move); ASCII line drop/repeat and token drop/repeat/replace; stream failing at byte k; seeded random bytes and '
            'random edits; each read in the listed (mesh type, topology check) configurations under ASan+UBSan with timeout and allocation cap. '
-           'distinct_nontrivial = number of distinct (validator class, input kind) inputs that are not byte-identical to a corpus file, counted as distinct byte strings.',
+           'distinct_nontrivial = number of distinct (format, mesh type, topology check, bottom-up, stream-failure position and mode, byte string) inputs that are not an unmodified corpus file (measured as a set).',
     'C18': 'inputs = for every corpus OVMB file written by the library: every truncation length, every spec-generated header/chunk-header/sub-header byte '
            'substitution and numeric-field substitution, chunk drop/dup/swap/EOF-move, input stream failing at every byte k (short read and throwing '
            'buffer), output stream failing at every byte k while saving; shipped files truncated around every chunk boundary. The spec (ParseFile) decides '
-           'validity of each input. distinct_nontrivial = distinct byte strings the spec classifies as strictly invalid plus distinct stream-failure positions.',
+           'validity of each input. distinct_nontrivial = number of distinct (mesh type, topology check, stream-failure position and mode, byte string) read inputs that are not an unmodified corpus file plus distinct (mesh, failure position, mode) write-failure injections (measured as sets); coverage.spec_verdicts gives how the specification classified them.',
 }
 
 
@@ -794,7 +803,10 @@ def run_check(prop, tier, seed, replay=None):
         jobs = [l for l in txt.splitlines() if l and l[0] in 'WRT' and l[1] == ' ']
         jmap = {int(x.split()[1]): x for x in jobs}
         recs = run_exec(variant, defs, jobs, work, 'replay', par=1)
-        res = validate_lines([recs[jj] for jj in sorted(recs)], [prop], work, 'vreplay')
+        extra = {}
+        if '#MUST' in txt: extra['must'] = True
+        if '#EXACT' in txt: extra['exact'] = True
+        res = validate_lines([recs[jj][:-1] + [add_field(recs[jj][-1], extra) if extra else recs[jj][-1]] for jj in sorted(recs)], [prop], work, 'vreplay')
         ctx.collect(res, recs, jmap, defs)
         cov['evaluations'] = len(recs); cov['distinct_nontrivial'] = 0
         cov['states'] = cov['transitions'] = max(1, len(recs)); cov['traces_validated_against_impl'] = res['checked']
@@ -805,9 +817,13 @@ def run_check(prop, tier, seed, replay=None):
     else:
         check_faults(ctx, cov, prop)
         cov['rule'] = RULE[prop]
-        strict = sum(n for c, n in ctx.classes.items() if c.startswith('strict:') or c.startswith('streamfail') or c.startswith('write-streamfail'))
-        other = sum(n for c, n in ctx.classes.items() if c.startswith('lax:') or c.startswith('ascii|') or c.startswith('valid|'))
-        cov['distinct_nontrivial'] = strict if prop == 'C18' else strict + other
+        cov['distinct_nontrivial'] = cov.get('distinct_inputs', 0) + cov.get('distinct_write_failures', 0)
+        cov['spec_verdicts'] = dict(
+            strictly_invalid=sum(n for c, n in ctx.classes.items() if c.startswith('strict:')),
+            invalid_not_demanded=sum(n for c, n in ctx.classes.items() if c.startswith('lax:')),
+            still_valid=sum(n for c, n in ctx.classes.items() if c.startswith('valid|')),
+            stream_failures=sum(n for c, n in ctx.classes.items() if 'streamfail' in c),
+            ascii=sum(n for c, n in ctx.classes.items() if c.startswith('ascii|')))
         cov['traces_validated_against_impl'] = ctx.checked
     cov['classes'] = dict(sorted(ctx.classes.items(), key=lambda kv: -kv[1])[:80])
     cov['samples'] = ctx.samples or [dict(note='no sample recorded')]
